@@ -126,6 +126,72 @@ c20_faststr_pair!(c20_faststr_pair_4x3, quick, 8, 4, 3);
 c20_faststr_pair!(c20_faststr_pair_5x3, quick, 8, 5, 3);
 c20_faststr_pair!(c20_faststr_pair_6x4, thorough, 9, 6, 4);
 
+/// Long strings with a concrete common filler and symbolic bytes at the positions P0, P1 of both
+/// strings (block boundaries of 16/32-byte vector paths): the order is decided inside a full block,
+/// at its last byte, or in the tail behind it.
+fn faststr_long<const LA: usize, const LB: usize, const P0: usize, const P1: usize>() {
+    let mut a = [0u8; LA];
+    let mut b = [0u8; LB];
+    let mut i = 0;
+    while i < LA {
+        a[i] = (i as u8).wrapping_mul(7).wrapping_add(0x41);
+        i += 1;
+    }
+    i = 0;
+    while i < LB {
+        b[i] = (i as u8).wrapping_mul(7).wrapping_add(0x41);
+        i += 1;
+    }
+    if P0 < LA {
+        a[P0] = vany();
+    }
+    if P1 < LA {
+        a[P1] = vany();
+    }
+    if P0 < LB {
+        b[P0] = vany();
+    }
+    if P1 < LB {
+        b[P1] = vany();
+    }
+    let fa = FastStr::new(&a);
+    let fb = FastStr::new(&b);
+    let ord = ref_cmp(&a, &b);
+    assert!((fa == fb) == (ord == Ordering::Equal), "FastStr == disagrees with byte equality");
+    assert!(fa.cmp(&fb) == ord, "FastStr::cmp is not unsigned lexicographic order");
+    assert!(fa.compare(fb) == ord, "FastStr::compare is not unsigned lexicographic order");
+    assert!(fb.compare(fa) == ord.reverse(), "FastStr::compare is not antisymmetric");
+    assert!(fa.partial_cmp(&fb) == Some(ord));
+    assert!((fa < fb) == (ord == Ordering::Less) && (fa >= fb) == (ord != Ordering::Less));
+    assert!(fa.starts_with(fb) == ref_occurs(&a, &b, 0), "starts_with");
+    let mut cp = 0;
+    while cp < LA && cp < LB && a[cp] == b[cp] {
+        cp += 1;
+    }
+    assert!(fa.common_prefix_len(fb) == cp, "common_prefix_len");
+    zcover!(P0 < LA && P0 < LB && a[P0] >= 0x80 && b[P0] < 0x80 && ord == Ordering::Greater, "byte >= 0x80 orders above ASCII inside the block");
+    zcover!(ord == Ordering::Equal || LA != LB, "equal contents");
+}
+macro_rules! c20_faststr_long {
+    ($name:ident, $tier:ident, $unwind:literal, $la:literal, $lb:literal, $p0:literal, $p1:literal) => {
+        zv_harness! {
+            name: $name,
+            prop: "C20",
+            tier: $tier,
+            unwind: $unwind,
+            stubs: [alloc::fmt::format => crate::common::stubs::fmt_format],
+            targets: "FastStr::{new, ==, cmp, partial_cmp, <, >=, compare, starts_with, common_prefix_len} on strings of 16..33 bytes (whole 16/32-byte blocks plus tails)",
+            bounds: "strings of the concrete lengths LA, LB of the instance sharing the concrete filler byte (7*i+0x41) mod 256 at index i, except the positions P0 and P1 (args: LA, LB, P0, P1), which hold an arbitrary byte in each string independently",
+            oracle: "definition-level loops over the byte arrays: unsigned lexicographic order (also antisymmetry of compare), prefix test, common prefix length",
+            body: { faststr_long::<$la, $lb, $p0, $p1>() }
+        }
+    };
+}
+c20_faststr_long!(c20_faststr_long_16x16_p0_p15, quick, 36, 16, 16, 0, 15);
+c20_faststr_long!(c20_faststr_long_17x18_p15_p16, quick, 36, 17, 18, 15, 16);
+c20_faststr_long!(c20_faststr_long_33x32_p16_p31, quick, 36, 33, 32, 16, 31);
+c20_faststr_long!(c20_faststr_long_32x33_p7_p32, thorough, 36, 32, 33, 7, 32);
+
 fn faststr_hash<const L: usize>() {
     use std::hash::{Hash, Hasher};
     /// deterministic recording hasher (FastStrHash / FastStrHasher are not exported by zipora)
@@ -498,6 +564,115 @@ macro_rules! c20_split_fields {
 c20_split_fields!(c20_split_simple_n1, thorough, 8, false, 1);
 c20_split_fields!(c20_split_optimized_n1, quick, 8, true, 1);
 c20_split_fields!(c20_split_optimized_n2, thorough, 8, true, 2);
+
+// ---------------------------------------------------------------------------------------------
+// line reading (src/string/line_processor.rs LineProcessor::process_lines / read_next_line)
+use zipora::string::{LineProcessor, LineProcessorConfig};
+
+/// definition: the input is cut after each '\n'; a line's text is the chunk without its '\n' and
+/// without one '\r' directly before that '\n'; a last chunk without '\n' is a line as it stands
+/// (a bare trailing '\r' is content) and an empty last chunk is no line.
+fn lines_case<const N: usize>(shape: &[u8; N]) {
+    // shape: b'L' = a concrete LF at this index; b'C' = text or CR (symbolic choice); b'*' = any ASCII byte
+    let mut raw = [0u8; N];
+    let mut k = 0;
+    while k < N {
+        raw[k] = match shape[k] {
+            b'L' => b'\n',
+            b'C' => {
+                if vany::<bool>() {
+                    b'\r'
+                } else {
+                    b'a'
+                }
+            }
+            _ => {
+                let b: u8 = vany();
+                assume(b < 0x80);
+                b
+            }
+        };
+        k += 1;
+    }
+    let mut starts = [0usize; 8];
+    let mut lens = [0usize; 8];
+    let mut want = 0usize;
+    let mut st = 0usize;
+    let mut i = 0;
+    while i < N {
+        if raw[i] == b'\n' {
+            let mut l = i - st;
+            if l > 0 && raw[i - 1] == b'\r' {
+                l -= 1;
+            }
+            starts[want] = st;
+            lens[want] = l;
+            want += 1;
+            st = i + 1;
+        }
+        i += 1;
+    }
+    if st < N {
+        starts[want] = st;
+        lens[want] = N - st;
+        want += 1;
+    }
+    // default configuration except for the BufReader capacity (64 KiB by default), which only
+    // sets how many bytes are fetched from the reader at a time
+    let mut proc_ = LineProcessor::with_config(&raw[..], LineProcessorConfig { buffer_size: 8, ..LineProcessorConfig::default() });
+    let mut got = 0usize;
+    let mut bad = false;
+    let r = proc_.process_lines(|line: &str| {
+        let lb = line.as_bytes();
+        if got >= want || lb.len() != lens[got] {
+            bad = true;
+        } else {
+            let mut j = 0;
+            while j < lb.len() {
+                if lb[j] != raw[starts[got] + j] {
+                    bad = true;
+                }
+                j += 1;
+            }
+        }
+        got += 1;
+        Ok(true)
+    });
+    let n = match r {
+        Ok(n) => n,
+        Err(e) => {
+            forget(e);
+            panic!("process_lines failed on an in-memory ASCII input")
+        }
+    };
+    assert!(!bad, "a line differs from the definition");
+    assert!(got == want && n == want, "number of lines differs from the definition");
+    zcover!(want >= 1 && lens[0] >= 1 && raw[starts[0] + lens[0] - 1] == b'\r', "a line whose content ends in CR");
+    zcover!(want == 2, "two lines");
+    forget(proc_);
+}
+macro_rules! c20_lines {
+    ($name:ident, $tier:ident, $unwind:literal, $shape:literal) => {
+        zv_harness! {
+            name: $name,
+            prop: "C20",
+            tier: $tier,
+            unwind: $unwind,
+            stubs: [alloc::fmt::format => crate::common::stubs::fmt_format,
+                    std::rt::thread_cleanup => crate::common::stubs::noop,
+                    core::slice::memchr::memchr => crate::common::stubs::memchr_naive,
+                    core::str::from_utf8 => crate::common::stubs::from_utf8_ascii],
+            targets: "string::line_processor::LineProcessor::{with_config, process_lines} (read_next_line over BufReader<&[u8]>), default configuration (line endings not preserved) with an 8-byte read buffer",
+            bounds: "every input of the shape given by the instance, one letter per byte: L = LF, C = either 'a' or CR (chosen independently per position), * = any ASCII byte; so every mix of LF, CRLF, bare CR and text at the concrete line structure of the shape",
+            oracle: "lines and their count equal the definition: cut after each LF, drop that LF and one CR directly before it, keep everything else (incl. a CR that is content and a last line without LF)",
+            body: { lines_case($shape) }
+        }
+    };
+}
+// none of these finishes within the quick caps (std BufReader::read_line under CBMC): thorough tier only
+c20_lines!(c20_lines_ccl, thorough, 8, b"CCL");
+c20_lines!(c20_lines_clcl, thorough, 9, b"CLCL");
+c20_lines!(c20_lines_any2, thorough, 8, b"**");
 
 // ---------------------------------------------------------------------------------------------
 // lexicographic iterator over a sorted vector (src/string/lexicographic_iterator.rs)
